@@ -445,8 +445,14 @@ def tsP : P String := do
   let rq ← paramsP
   expectTok "=>"
   expectTok "D"
-  let nd ← natTok
-  let ds ← repeatP nd decP
+  let ds ← (do
+    match (← get) with
+    | "panic" :: rest => do
+      set rest
+      pure [DecX.panic]
+    | _ => do
+      let nd ← natTok
+      repeatP nd decP : P (List DecX))
   let orc ← oracleP
   let listP : P (List Res) := do
     let n ← natTok
